@@ -349,7 +349,11 @@ def run_random(shard, ctx):
 
                 sc_obj = asm_.scaffold_by_name("s")
                 extra_len = rng.choice([1, 7, 1000])
-                sc_obj.add_row(_F(f"more{i}", 1, extra_len, 1))
+                _ = sc_obj.length  # (its length has been asked for before, e.g. for a report)
+                if i % 2:
+                    sc_obj.add_row(_F(f"more{i}", 1, extra_len, 1))
+                else:
+                    sc_obj.rows.append(_F(f"more{i}", 1, extra_len, 1))  # rows is a plain list: edited directly
                 try:
                     ia2 = _IA("again", scaffolds=[sc_obj])
                     for q in (total + 1, max(1, total - 2), total + extra_len):
